@@ -315,7 +315,11 @@ def run(chk):
         direct = [c for c in walk_no_nested(hf.node) if isinstance(c, ast.Call) and isinstance(c.func, ast.Attribute) and isinstance(c.func.value, ast.Name) and c.func.value.id in cvars]
         r3.expect(not direct, "HashClient.%s reaches clients only through the safe runner" % m, "HashClient.%s:direct-client-call" % m, "HashClient.%s calls `%s` outside _safely_run_func" % (m, node_src(direct[0]) if direct else ""), fn=hf)
     r3.floor("PooledClient read methods analysed", n_cov, 6)
-    chk.assume("exceptions raised by HashClient's own bookkeeping inside the failover handlers are not decided here (C13)")
+    r4 = chk.rule("C07.R4", "still usable: reads are routed through the current rotation, so an evicted server is not contacted again (its repeated failure would raise from the failover bookkeeping even with ignore_exc)")
+    from . import rules_C12, report
+
+    report.include_rules(chk, r4, rules_C12, ("C12.R2",), "HashClient reads reach only servers the hasher currently has in rotation")
+    chk.assume("exceptions raised by HashClient's own bookkeeping inside the failover handlers are otherwise not decided here (C13)")
     chk.assume("input validation errors (MemcacheIllegalInputError) are not server/network failures and may be raised")
 
 
